@@ -47,7 +47,55 @@ STEP_JS = {
 }
 
 
+def li_wire(v):
+    w = wire.to_wire(v)
+    if w["k"] == "num":
+        w["f"] = isinstance(v, float)           # representation inside the engine (an integer-valued float is still the number)
+    return w
+
+
 def history_driver(case, api):
+    """fast path: the whole history in one evaluation; if that does not complete (host exception), replay it step by step"""
+    ctx = api.new_context(time_limit=60.0)
+    got = []
+    ctx.set("__out", lambda *a: (got.append(a), None)[1])
+    ctx.set("P", wire.from_units(case["src"]))
+    ctx.set("F", case["flags"])
+    ctx.set("S", wire.from_units(case["s"]))
+    for k, v in enumerate(case["vals"]):
+        if v is not None and v["k"] != "undef":
+            ctx.set("V%d" % k, wire_to_py(v, intrep=bool(case.get("intrep"))))
+    src = "var R = new RegExp(P, F);"
+    for k in case["ops"]:
+        src += " __out('step'); " + (STEP_JS.get(case["names"][k]) or ("R.lastIndex = V%d; __out('li', R.lastIndex);" % k))
+    out = api.eval_outcome(ctx, src, wall=30.0, cap=5_000_000)
+    if out["o"] != "value":
+        return history_slow(case, api)
+    obs, cur = [], None
+    for g in got:
+        if g[0] == "step":
+            cur = {"out": "ok", "ty": "", "res": {"k": "none"}, "li": None}
+            obs.append(cur)
+        else:
+            absorb(cur, g)
+    if len(obs) != len(case["ops"]) or any(o["li"] is None for o in obs):
+        return history_slow(case, api)
+    return {"id": case["id"], "obs": obs}
+
+
+def absorb(cur, g):
+    if g[0] == "exec":
+        cur["res"] = match_obs(g[1], g[2])
+    elif g[0] == "test":
+        w = wire.to_wire(g[1])
+        cur["res"] = {"k": "bool", "b": w["b"]} if w["k"] == "bool" else {"k": "bad", "t": w["k"]}
+    elif g[0] == "read":
+        cur["res"] = {"k": "val", "v": wire.to_wire(g[1])}
+    elif g[0] == "li":
+        cur["li"] = li_wire(g[1])
+
+
+def history_slow(case, api):
     ctx = api.new_context(time_limit=60.0)
     got = []
     ctx.set("__out", lambda *a: (got.append(a), None)[1])
@@ -68,25 +116,17 @@ def history_driver(case, api):
         del got[:]
         out = api.eval_outcome(ctx, src, wall=30.0, cap=2_000_000)
         tag, ty = outcome_tag(out)
-        res = {"k": "none"}
-        li = None
+        cur = {"res": {"k": "none"}, "li": None}
         for g in got:
-            if g[0] == "exec":
-                res = match_obs(g[1], g[2])
-            elif g[0] == "test":
-                w = wire.to_wire(g[1])
-                res = {"k": "bool", "b": w["b"]} if w["k"] == "bool" else {"k": "bad", "t": w["k"]}
-            elif g[0] == "read":
-                res = {"k": "val", "v": wire.to_wire(g[1])}
-            elif g[0] == "li":
-                li = wire.to_wire(g[1])
+            absorb(cur, g)
+        res, li = cur["res"], cur["li"]
         if tag != "ok":
             res = {"k": "none"}
         if li is None:
             # the step did not complete: read lastIndex in a separate evaluation (the context must still be usable)
             del got[:]
             out2 = api.eval_outcome(ctx, "__out('li', R.lastIndex);", wall=30.0)
-            li = wire.to_wire(got[0][1]) if out2["o"] == "value" and got else {"k": "hostval", "t": "unreadable"}
+            li = li_wire(got[0][1]) if out2["o"] == "value" and got else {"k": "hostval", "t": "unreadable"}
         obs.append({"out": tag, "ty": ty, "res": res, "li": li})
     return {"id": case["id"], "obs": obs}
 
